@@ -57,8 +57,9 @@ func (s *state) rwAlt(t *rapid.T) *ast.Node {
 	a := ast.Alt()
 	n := rapid.IntRange(2, 5).Draw(t, "rwaltn")
 	prefix := s.rwStr(t, 1, 2)
+	sharedSet := s.rwSet(t)
 	for i := 0; i < n; i++ {
-		switch rapid.IntRange(0, 7).Draw(t, "rwaltk") {
+		switch rapid.IntRange(0, 8).Draw(t, "rwaltk") {
 		case 0:
 			a.Kids = append(a.Kids, ast.Empty())
 		case 1, 2, 3:
@@ -67,6 +68,14 @@ func (s *state) rwAlt(t *rapid.T) *ast.Node {
 			a.Kids = append(a.Kids, ast.Seq(s.rwSet(t), s.rwStr(t, 1, 2)))
 		case 5:
 			a.Kids = append(a.Kids, ast.Seq(s.rwStr(t, 1, 2), s.rwLoop(t)))
+		case 6:
+			// branches starting with a loop over one shared set but different counts
+			lo := rapid.IntRange(0, 2).Draw(t, "rwlo")
+			hi := lo + rapid.IntRange(0, 2).Draw(t, "rwhi")
+			if hi == 0 {
+				hi = 1
+			}
+			a.Kids = append(a.Kids, ast.Seq(ast.Quant(sharedSet.Clone(), lo, hi, false), s.rwStr(t, 1, 2)))
 		default:
 			a.Kids = append(a.Kids, s.rwStr(t, 1, 3))
 		}
@@ -128,7 +137,14 @@ func Rewrite(t *rapid.T, cfg Cfg) *ast.Node {
 	if rapid.IntRange(0, 2).Draw(t, "rwtail") != 0 {
 		root.Kids = append(root.Kids, piece(1))
 	}
-	if rapid.IntRange(0, 4).Draw(t, "rwend") == 0 {
+	if rapid.IntRange(0, 5).Draw(t, "rwloopend") == 0 {
+		// a loop (often over a set containing newline) directly before an end anchor, possibly followed by more
+		root.Kids = append(root.Kids, ast.Group(rapid.SampledFrom([]ast.GKind{ast.GNon, ast.GCap}).Draw(t, "rwleg"), s.rwLoop(t)),
+			ast.Anchor(rapid.SampledFrom([]string{"$", `\Z`, `\z`}).Draw(t, "rwleanchor")))
+		if rapid.Bool().Draw(t, "rwafter") {
+			root.Kids = append(root.Kids, ast.Lit('\n'))
+		}
+	} else if rapid.IntRange(0, 4).Draw(t, "rwend") == 0 {
 		root.Kids = append(root.Kids, ast.Anchor(rapid.SampledFrom([]string{"$", `\b`, `\z`, `\B`}).Draw(t, "rwanchor")))
 	}
 	return root
